@@ -415,10 +415,13 @@ static unsigned check_value(ctx *c, enum vf_family f, uint64_t v,
         len = chk_s16(c, v, ref, rl);
         break;
     }
-    if (len && c->classes) {
-        char cls[64];
-        snprintf(cls, sizeof(cls), "%s.len%u", vf_family_name[f], rl);
-        vf_class(cls);
+    if (len && c->classes && rl <= 9) {
+        static char cls[VF_NFAMILY][10][40];
+        if (!cls[f][rl][0]) {
+            snprintf(cls[f][rl], sizeof(cls[f][rl]), "%s.len%u",
+                     vf_family_name[f], rl);
+        }
+        vf_class(cls[f][rl]);
     }
     return len;
 }
